@@ -4,13 +4,20 @@
 `Obj` models the Python objects that flow through cattrs, structured and unstructured alike.
 Floats are restricted to half-integers (`flt k` is the float `k/2`), bytes are kept as a hex
 string, sets are duplicate-free lists in iteration order, dicts are association lists in
-insertion order.
+insertion order (`mdict`: the same, tagged with the dict subclass).
 -/
 namespace CattrsModel
 
 /-- Run-time container classes. -/
 inductive CK where
   | list | tuple | deque | set | fset
+  deriving DecidableEq, Repr, Inhabited
+
+/-- Run-time mapping classes other than `dict` (`collections.OrderedDict`, `collections.defaultdict`,
+`collections.Counter`): what a mapping-typed position is structured INTO when its declared class is not `dict` /
+`Mapping` / `MutableMapping`. -/
+inductive DK where
+  | ordered | defaultdict | counter
   deriving DecidableEq, Repr, Inhabited
 
 inductive Obj where
@@ -23,6 +30,9 @@ inductive Obj where
   | enumM (e m : Nat)
   | coll (k : CK) (xs : List Obj)
   | dict (kvs : List (Obj × Obj))
+  /-- an instance of a `dict` SUBCLASS (`OrderedDict`, `defaultdict`, `Counter`); the `default_factory` of a
+  `defaultdict` is not part of the model (it is a function of the declared type) -/
+  | mdict (k : DK) (kvs : List (Obj × Obj))
   | inst (c : Nat) (fs : List (String × Obj))
   | opaque (n : Nat)
   deriving Repr, Inhabited
